@@ -20,6 +20,7 @@ import (
 
 	"github.com/iDigitalFlame/xmt/c2"
 	"github.com/iDigitalFlame/xmt/com"
+	"github.com/iDigitalFlame/xmt/device"
 
 	"verifharness/vh"
 )
@@ -48,6 +49,72 @@ type op struct {
 	Err  bool   `json:"err,omitempty"` // handle: FlagError
 	H    int    `json:"h,omitempty"`   // job handle (index in creation order)
 	Max  int    `json:"max,omitempty"`
+	PL   int    `json:"payload,omitempty"` // handle: payload shape, see payloadShapes
+	Info bool   `json:"info,omitempty"`    // task: an information job (Type MvTime): handle calls handleInfoResult
+}
+
+// payload shapes of a result packet (what ReadString(&j.Error) finds for an error-flagged one)
+var payloadShapes = []string{"text", "empty-string", "zero-byte", "no-payload", "truncated-header", "truncated-body", "length-zero", "bad-class", "short-16bit-header", "sync-info"}
+
+// mkResult builds the result packet of a handle operation; the payload bytes go into the model
+func mkResult(dev device.ID, o op) (*com.Packet, []int) {
+	p := &com.Packet{ID: c2.RvResult, Job: uint16(o.ID), Device: dev}
+	switch o.WF {
+	case 1:
+		p.ID = c2.RvResult + 1
+	case 2:
+		p.Device[0] = 0
+	}
+	if o.Err {
+		p.Flags |= com.FlagError
+	}
+	switch o.PL {
+	case 0:
+		if o.Err {
+			p.WriteString("boom")
+		} else {
+			p.WriteString("fine")
+		}
+	case 1:
+		p.WriteString("")
+	case 2:
+		p.WriteUint8(0)
+	case 3:
+	case 4:
+		p.WriteUint8(1)
+	case 5:
+		p.WriteUint8(1)
+		p.WriteUint8(4)
+		p.WriteUint8(98)
+	case 6:
+		p.WriteUint8(1)
+		p.WriteUint8(0)
+	case 7:
+		p.WriteUint8(200)
+	case 8:
+		p.WriteUint8(3)
+		p.WriteUint8(0)
+	case 9: // what an MvTime result carries (infoSync): jitter, sleep, kill date, work hours
+		p.WriteUint8(0)
+		p.WriteInt64(int64(time.Second))
+		p.WriteInt64(0)
+		p.WriteUint32(0)
+		p.WriteUint8(0)
+	}
+	b := p.Payload()
+	pl := make([]int, len(b))
+	for i, x := range b {
+		pl[i] = int(x)
+	}
+	return p, pl
+}
+
+func plTerm(pl []int) string {
+	items := make([]string, len(pl))
+	for i, x := range pl {
+		items[i] = fmt.Sprint(x)
+	}
+	return vh.List(items)
 }
 
 type waiter struct {
@@ -64,6 +131,7 @@ type jobRec struct {
 	frozen   [3]int // status, result tag, error non-empty, recorded right after the finishing event
 	waiters  []*waiter
 	finKind  string
+	inCS     bool // a result thread is parked INSIDE its write-locked section for this job (Status may be written, done not yet)
 	orphan   bool // overwritten in the table by a concurrent Task (known finding): no expectations
 }
 
@@ -73,6 +141,21 @@ type world struct {
 	byID   map[uint16]*jobRec // oracle's own pending table
 	tags   map[*com.Packet]int
 	nextTg int
+	raw    bool // a goroutine is parked inside the write-locked section: read the table without the lock
+}
+
+func (w *world) tableIDs() []uint16 {
+	if w.raw {
+		return c2.VerifC14TableRaw(w.s)
+	}
+	return c2.VerifC14Table(w.s)
+}
+
+func (w *world) entry(id uint16) *c2.Job {
+	if w.raw {
+		return c2.VerifC14EntryRaw(w.s, id)
+	}
+	return c2.VerifC14Entry(w.s, id)
 }
 
 func newWorld() *world {
@@ -125,11 +208,11 @@ func (w *world) resTag(j *c2.Job) int {
 }
 
 func tableTerm(w *world) (string, bool) {
-	ids := c2.VerifC14Table(w.s)
+	ids := w.tableIDs()
 	items := make([]string, 0, len(ids))
 	ok := true
 	for _, id := range ids {
-		h := w.handleOf(c2.VerifC14Entry(w.s, id))
+		h := w.handleOf(w.entry(id))
 		if h < 0 {
 			ok = false
 		}
@@ -174,6 +257,9 @@ func (w *world) run(o op, seq []op, idx int) (opTerm, retTerm string, panicked b
 			c2.VerifC14Fill(s)
 		}
 		n := &com.Packet{ID: pktTask, Job: uint16(o.ID)}
+		if o.Info {
+			n.ID = 0x08 // task.MvTime
+		}
 		j, err := s.Task(n)
 		c2.VerifC14Drain(s)
 		draws := "[]"
@@ -221,23 +307,11 @@ func (w *world) run(o op, seq []op, idx int) (opTerm, retTerm string, panicked b
 			fail(fmt.Sprintf("newJobID returned %d (1 or a pending job's number)", i), "seq:job-id-pending")
 		}
 	case "handle":
-		p := &com.Packet{ID: c2.RvResult, Job: uint16(o.ID), Device: w.s.ID}
-		switch o.WF {
-		case 1:
-			p.ID = c2.RvResult + 1
-		case 2:
-			p.Device[0] = 0
-		}
-		if o.Err {
-			p.Flags |= com.FlagError
-			p.WriteString("boom")
-		} else {
-			p.WriteString("fine")
-		}
+		p, pl := mkResult(w.s.ID, o)
 		tag := w.nextTg
 		w.nextTg++
 		w.tags[p] = tag
-		opTerm = fmt.Sprintf("(OHandle %s %d %s %d)", vh.B(o.WF == 0), o.ID, vh.B(o.Err), tag)
+		opTerm = fmt.Sprintf("(OHandle %s %d %s %d %s)", vh.B(o.WF == 0), o.ID, vh.B(o.Err), tag, plTerm(pl))
 		target := w.byID[uint16(o.ID)]
 		if o.WF != 0 || o.ID < 2 || (target != nil && !target.pending) {
 			target = nil
@@ -394,7 +468,7 @@ func (w *world) oracleWith(fail func(what, key string), opname string) {
 		}
 		st := int(r.j.Status)
 		cur := [3]int{st, w.resTag(r.j), b2i(len(r.j.Error) > 0)}
-		inTable := c2.VerifC14Entry(w.s, r.id) == r.j
+		inTable := w.entry(r.id) == r.j
 		done := c2.VerifC14Done(r.j)
 		if r.pending {
 			if !inTable {
@@ -403,7 +477,7 @@ func (w *world) oracleWith(fail func(what, key string), opname string) {
 			if done != 0 {
 				fail(fmt.Sprintf("pending job %d has its done channel released", h), "seq:pending-done-released")
 			}
-			if st >= 3 {
+			if st >= 3 && !r.inCS {
 				fail(fmt.Sprintf("pending job %d has final status %d", h, st), "seq:pending-final-status")
 			}
 			continue
@@ -491,7 +565,7 @@ func doSeq(seq []op, class string) {
 
 func alphabet() []op {
 	return []op{
-		{K: "task", ID: 7}, {K: "task", ID: 0}, {K: "handle", ID: 7}, {K: "handle", ID: 7, Err: true}, {K: "handle", ID: 9},
+		{K: "task", ID: 7}, {K: "task", ID: 0}, {K: "handle", ID: 7}, {K: "handle", ID: 7, Err: true}, {K: "handle", ID: 7, Err: true, PL: 2}, {K: "handle", ID: 9},
 		{K: "cancel", H: 0}, {K: "wait", H: 0}, {K: "isdone", H: 0}, {K: "jobs"}, {K: "accept", ID: 7}, {K: "frag", ID: 7, Max: 3},
 	}
 }
@@ -514,7 +588,11 @@ func randOp(r *vh.Rand, njobs int) op {
 		if r.Intn(10) == 0 {
 			wf = 1 + r.Intn(2)
 		}
-		return op{K: "handle", ID: id, Err: r.Intn(3) == 0, WF: wf}
+		pl := 0
+		if r.Intn(3) == 0 {
+			pl = r.Intn(9)
+		}
+		return op{K: "handle", ID: id, Err: r.Intn(3) == 0, WF: wf, PL: pl}
 	case 8, 9, 10, 11:
 		return op{K: "cancel", H: h}
 	case 12:
@@ -553,6 +631,8 @@ type cthread struct {
 	ev      chan int // 1 = parked at a scheduling point, 2 = returned
 	resume  chan struct{}
 	started bool
+	point   int // where it is parked: 1 handle before the lock, 2 Task before the insert, 3 handle inside handleInfoResult (lock held)
+	pl      []int
 	parked  bool
 	blocked bool // a Wait that has not returned
 	fin     bool
@@ -578,9 +658,10 @@ func newSWorld() *sworld {
 	w := &world{byID: map[uint16]*jobRec{}, tags: map[*com.Packet]int{}, nextTg: 1}
 	w.s = c2.VerifC14SessionHooked(func(point int) {
 		t := sw.cur
-		if t == nil {
+		if t == nil || (point == 3 && !t.o.Info) {
 			return
 		}
+		t.point = point
 		t.ev <- 1
 		<-t.resume
 	})
@@ -644,14 +725,12 @@ func (sw *sworld) seg(t *cthread, complete bool, fail func(what, key string)) (t
 		switch t.o.K {
 		case "task":
 			t.pkt = &com.Packet{ID: pktTask, Job: uint16(t.o.ID)}
-		case "handle":
-			p := &com.Packet{ID: c2.RvResult, Job: uint16(t.o.ID), Device: w.s.ID}
-			if t.o.Err {
-				p.Flags |= com.FlagError
-				p.WriteString("boom")
-			} else {
-				p.WriteString("fine")
+			if t.o.Info {
+				t.pkt.ID = 0x08 // task.MvTime
 			}
+		case "handle":
+			p, pl := mkResult(w.s.ID, t.o)
+			t.pl = pl
 			t.pkt, t.tag = p, w.nextTg
 			w.nextTg++
 			w.tags[p] = t.tag
@@ -680,6 +759,12 @@ func (sw *sworld) seg(t *cthread, complete bool, fail func(what, key string)) (t
 		t.blocked = true
 	}
 	sw.cur = nil
+	w.raw = false
+	for _, x := range sw.all {
+		if x.parked && x.point == 3 {
+			w.raw = true
+		}
+	}
 	if t.panicv != "" {
 		fail(fmt.Sprintf("%s panicked: %s", t.o.K, t.panicv), "sched:panic:"+t.o.K+":"+t.panicv)
 		return "", true
@@ -694,7 +779,7 @@ func (sw *sworld) seg(t *cthread, complete bool, fail func(what, key string)) (t
 			}
 			t.opTerm = fmt.Sprintf("(OTask %d %s false)", t.o.ID, draws)
 		case "handle":
-			t.opTerm = fmt.Sprintf("(OHandle true %d %s %d)", t.o.ID, vh.B(t.o.Err), t.tag)
+			t.opTerm = fmt.Sprintf("(OHandle true %d %s %d %s)", t.o.ID, vh.B(t.o.Err), t.tag, plTerm(t.pl))
 		case "cancel":
 			t.opTerm = fmt.Sprintf("(OCancel %d%%nat)", t.o.H)
 		case "wait":
@@ -702,13 +787,22 @@ func (sw *sworld) seg(t *cthread, complete bool, fail func(what, key string)) (t
 		case "isdone":
 			t.opTerm = fmt.Sprintf("(OIsDone %d%%nat)", t.o.H)
 		}
-		k := 2
-		if complete {
-			k = 4
+		// steps of the model up to the scheduling point: Task: PTask0, PTask1; handle: PH0, PH1.
+		// Everything else (and every final segment) gets more steps than it needs: a thread that
+		// has returned, or that is blocked, stutters.
+		k := 16
+		if !complete && (t.o.K == "task" || t.o.K == "handle") {
+			k = 2
 		}
 		segTerm = fmt.Sprintf("(SSpawn %s %d%%nat)", t.opTerm, k)
 	} else {
-		segTerm = fmt.Sprintf("(SResume %d%%nat 2%%nat)", t.tid)
+		// resumed from point 1 and parked again at point 3 (inside handleInfoResult, lock held):
+		// exactly the lock, j.Result and j.Status have been written (PH2, HRes, HSt)
+		k := 16
+		if t.parked && t.point == 3 {
+			k = 3
+		}
+		segTerm = fmt.Sprintf("(SResume %d%%nat %d%%nat)", t.tid, k)
 	}
 	// ---- the specification (oracle), in the order in which the segments ran
 	obs := "TParked"
@@ -765,6 +859,9 @@ func (sw *sworld) seg(t *cthread, complete bool, fail func(what, key string)) (t
 			if tg != nil && t.fin {
 				fail("the result of a pending job was dropped at the lookup", "seq:result-dropped")
 			}
+		}
+		if tg != nil {
+			tg.inCS = t.parked && t.point == 3
 		}
 		if t.fin {
 			obs = "(TRet (RBool " + vh.B(t.bret) + "))"
@@ -892,8 +989,13 @@ func doSched(setup, threads []op, schedule []int, epilogue []op, class string) {
 	}
 	// whatever is still parked runs to its end, in thread order
 	for _, t := range ts {
-		if t.started && !t.fin {
+		for n := 0; n < 3 && t.started && t.parked && !stop; n++ {
 			run(t, false)
+		}
+	}
+	for _, t := range ts {
+		if t.started && !t.fin && !stop {
+			run(t, false) // a Wait that was blocked: has it been released?
 		}
 	}
 	for _, o := range epilogue {
@@ -943,7 +1045,12 @@ func interleavings(segs []int, f func([]int)) {
 
 func segCount(o op) int {
 	switch o.K {
-	case "task", "handle", "wait":
+	case "handle":
+		if o.Info {
+			return 3
+		}
+		return 2
+	case "task", "wait":
 		return 2
 	}
 	return 1
@@ -978,6 +1085,13 @@ func schedPart(rng *vh.Rand, thorough bool) {
 		{"task||cancel||result", []op{T7}, []op{T7, C0, R7}, []op{R7, D0, D1}},
 		{"result||cancel||wait||isdone", []op{T7}, []op{R7, C0, W0, D0}, nil},
 		{"two-jobs", []op{T7, T8}, []op{R7, R8, C0, C1}, []op{D0, D1}},
+		// error-flagged results with an empty text / a truncated text racing a Cancel
+		{"empty-error||cancel", []op{T7}, []op{{K: "handle", ID: 7, Err: true, PL: 1}, C0}, []op{D0}},
+		{"zero-byte-error||truncated-error", []op{T7}, []op{{K: "handle", ID: 7, Err: true, PL: 2}, {K: "handle", ID: 7, Err: true, PL: 5}}, []op{D0}},
+		// an information job: the result thread can also be parked INSIDE its write-locked section
+		// (handleInfoResult), where only the lock-free readers can run: they must not see it released
+		{"info-result||isdone||wait", []op{{K: "task", ID: 7, Info: true}}, []op{{K: "handle", ID: 7, PL: 9, Info: true}, D0, W0}, []op{C0, D0}},
+		{"info-result||isdone||isdone", []op{{K: "task", ID: 7, Info: true}}, []op{{K: "handle", ID: 7, PL: 9, Info: true}, D0, D0}, []op{R7, D0}},
 	}
 	for _, p := range progs {
 		segs := make([]int, len(p.thr))
@@ -987,7 +1101,8 @@ func schedPart(rng *vh.Rand, thorough bool) {
 		interleavings(segs, func(s []int) { doSched(p.setup, p.thr, s, p.epi, "sched:"+p.name) })
 	}
 	// random programs and schedules
-	pool := []op{R7, E7, R7, C0, C0, C1, T7, T7, T8, R8, W0, D0, D1, {K: "wait", H: 1}, {K: "handle", ID: 9}, T0}
+	pool := []op{R7, E7, R7, C0, C0, C1, T7, T7, T8, R8, W0, D0, D1, {K: "wait", H: 1}, {K: "handle", ID: 9}, T0,
+		{K: "handle", ID: 7, Err: true, PL: 1}, {K: "handle", ID: 7, Err: true, PL: 2}, {K: "handle", ID: 7, Err: true, PL: 4}, {K: "handle", ID: 8, PL: 3}}
 	n := 400
 	if thorough {
 		n = 6000
@@ -1314,7 +1429,7 @@ func main() {
 	out = vh.NewOut("C14", fl, "From XMT Require Import Base.Prelude Model.Job.", "case", "check",
 		"sequential operation sequences (Task explicit/allocated/duplicate/full queue, result normal/error/duplicate/unknown/malformed, Cancel repeated, "+
 			"Wait with timeout, IsDone, Jobs, Job, hasJob, accept, frag) on a real server-side Session compared step by step (return value, every job's "+
-			"Status/done/Result/Frags/Error, the table) with the model: corpus, every sequence over an 11-letter alphabet up to length L, random longer ones; "+
+			"Status/done/Result/Frags/Error, the table) with the model: corpus, every sequence over a 12-letter alphabet up to length L, random longer ones; "+
 			"then racing goroutines (search only); distinct = distinct Coq case term / distinct racing actor multiset, non-trivial = at least one job finished")
 	out.ShardSize = 500
 	rng := vh.NewRand(fl.Seed)
@@ -1346,6 +1461,23 @@ func main() {
 		{T7, {K: "handle", ID: 7, WF: 1}, {K: "handle", ID: 7, WF: 2}, D0},
 		{{K: "task", ID: 7, Full: true}, T7, R7},
 		{T7, W0, R7, W0},
+		// error-flagged results: the Status is error whatever the text is (empty string, the single
+		// zero byte of a failed fragment write, no payload, truncated / malformed string headers)
+		{T7, {K: "handle", ID: 7, Err: true, PL: 1}, D0},
+		{T7, {K: "handle", ID: 7, Err: true, PL: 2}, D0},
+		{T7, {K: "handle", ID: 7, Err: true, PL: 3}, D0},
+		{T7, {K: "handle", ID: 7, Err: true, PL: 4}, D0},
+		{T7, {K: "handle", ID: 7, Err: true, PL: 5}, D0},
+		{T7, {K: "handle", ID: 7, Err: true, PL: 6}, D0},
+		{T7, {K: "handle", ID: 7, Err: true, PL: 7}, D0},
+		{T7, {K: "handle", ID: 7, Err: true, PL: 8}, D0},
+		{T7, {K: "handle", ID: 7, PL: 1}, D0},
+		{T7, {K: "handle", ID: 7, PL: 3}, D0},
+		{T7, {K: "handle", ID: 7, PL: 5}, R7, D0},
+		// information jobs (handleInfoResult reads Job.Result under the lock)
+		{{K: "task", ID: 7, Info: true}, {K: "handle", ID: 7, PL: 9}, D0, W0},
+		{{K: "task", ID: 7, Info: true}, {K: "handle", ID: 7, PL: 3}, D0},
+		{{K: "task", ID: 7, Info: true}, {K: "handle", ID: 7, Err: true, PL: 1}, D0},
 		{T7, {K: "accept", ID: 7}, {K: "frag", ID: 7, Max: 2}, {K: "frag", ID: 7, Max: 2}, R7, {K: "accept", ID: 7}, {K: "frag", ID: 7, Max: 1}},
 		{{K: "cancel", H: 3}, {K: "wait", H: 3}, {K: "isdone", H: 3}, {K: "new"}, {K: "job", ID: 7}, {K: "hasjob", ID: 7}},
 		{T7, {K: "task", ID: 8}, {K: "task", ID: 65535}, {K: "jobs"}, {K: "job", ID: 8}, {K: "hasjob", ID: 8}, {K: "handle", ID: 8}, {K: "jobs"}, C0, {K: "jobs"}},
